@@ -144,6 +144,10 @@ Fixpoint last_byte (l : list N) : option N :=
   | _ :: t => last_byte t
   end.
 
+(* `ch == '-' && strings.HasPrefix(line[i:], "--")`: a line comment starts at c (next character: head of t) *)
+Definition next_is (n : N) (t : list ch) : bool := match t with d :: _ => cp d =? n | [] => false end.
+Definition cstart (c : ch) (t : list ch) : bool := (cp c =? 45) && next_is 45 t.
+
 Section Lint.
   Variables is_letter is_digit is_space : N -> bool.
   Variable upper_ascii : N -> option N.
@@ -280,7 +284,8 @@ Section Lint.
     | c :: t =>
         match q with
         | None =>
-            if is_quote c then wr c :: l010_scan (Some (cp c)) false t
+            if cstart c t then c :: t              (* the comment is copied unchanged: WriteString(trimmed[i:]) *)
+            else if is_quote c then wr c :: l010_scan (Some (cp c)) false t
             else if is_sp c then (if prev_space then [] else [wr c]) ++ l010_scan None true t
             else wr c :: l010_scan None false t
         | Some k =>
@@ -305,7 +310,8 @@ Section Lint.
         let i' := (i + width c)%nat in
         match q with
         | None =>
-            if is_quote c then
+            if cstart c t then match cur with [] => [] | _ => [(start, rev cur)] end     (* break *)
+            else if is_quote c then
               (match cur with [] => [] | _ => [(start, rev cur)] end) ++ l010_parts (Some (cp c)) i' start [] t
             else
               l010_parts None i' (match cur with [] => i | _ => start end) (wr c :: cur) t
@@ -375,7 +381,8 @@ Section Lint.
     | c :: t =>
         match q with
         | None =>
-            if is_quote c then flush ++ wr c :: l007_scan (Some (cp c)) None t
+            if cstart c t then flush ++ c :: t     (* the comment is copied unchanged: WriteString(line[i:]) *)
+            else if is_quote c then flush ++ wr c :: l007_scan (Some (cp c)) None t
             else
               let inw := match cur with Some _ => true | None => false end in
               if word_start c || (inw && is_digit (cp c)) then
@@ -398,7 +405,8 @@ Section Lint.
         let i' := (i + width c)%nat in
         match q with
         | None =>
-            if is_quote c then flush ++ l007_words (Some (cp c)) i' None t
+            if cstart c t then flush               (* break *)
+            else if is_quote c then flush ++ l007_words (Some (cp c)) i' None t
             else
               let inw := match cur with Some _ => true | None => false end in
               if word_start c || (inw && is_digit (cp c)) then
@@ -547,7 +555,6 @@ Section Spec.
      '...', "...", `...` (a doubled quote re-opens at once), -- to end of line, and /* ... */ *)
   Inductive lstate := LCode | LStr (q : N) | LLine | LBlockOpen | LBlock | LBlockClose.
   Definition quote3 (c : ch) : bool := (cp c =? 39) || (cp c =? 34) || (cp c =? 96).
-  Definition next_is (n : N) (t : list ch) : bool := match t with d :: _ => cp d =? n | [] => false end.
   Fixpoint lex (st : lstate) (l : list ch) : list N :=
     match l with
     | [] => []
